@@ -444,10 +444,11 @@ package server
 // wsRootPath(s): the root journal path of the server's workspace (what srcPath of the workspace's resolved tree is).
 //@ specfun wsRootPath(s *Server) string
 
-// A resolved tree handed out by the workspace belongs to the workspace root, not to the requesting document.
+// Resolved trees are created by the loader (LoadFromContent, Load) or by the workspace, which record the path of the
+// primary journal in PrimaryPath.
 //@ trusted (*Server).getWorkspaceResolved
 //@   effects none
-//@   ensures s.workspace != nil && result != nil ==> srcPath(result) == wsRootPath(s) || srcPath(result) == uriPath(docURI)
+//@   ensures result != nil && result.Primary != nil ==> result.PrimaryPath != ""
 
 //@ specfun uriPath(u protocol.DocumentURI) string
 //@ trusted uriToPath
@@ -463,10 +464,11 @@ package server
 // primary journal of a resolved tree to be labelled with ITS path (srcPath), which the callers must establish.
 //@ func allJournalsWithPaths
 //@   props C09
-//@   requires [C09:primary_is_current] resolved != nil && resolved.Primary != nil && currentPath != "" ==> srcPath(resolved) == currentPath
+//@   requires [C09:primary_labelled] resolved != nil && resolved.Primary != nil && resolved.PrimaryPath == "" ==> srcPath(resolved) == currentPath
 //@   ensures [fresh] result != nil && fresh(result)
-//@   ensures [C09:files] resolved != nil ==> (forall p string :: {result[p]} p != currentPath ==> result[p] == resolved.Files[p])
-//@   ensures [C09:primary] resolved != nil && resolved.Primary != nil && currentPath != "" ==> result[currentPath] == resolved.Primary
+//@   ensures [C09:files] resolved != nil ==> (forall p string :: {result[p]} p != resolved.PrimaryPath && p != currentPath ==> result[p] == resolved.Files[p])
+//@   ensures [C09:primary] resolved != nil && resolved.Primary != nil && resolved.PrimaryPath != "" ==> result[resolved.PrimaryPath] == resolved.Primary
+//@   ensures [C09:primary_unlabelled] resolved != nil && resolved.Primary != nil && resolved.PrimaryPath == "" && currentPath != "" ==> result[currentPath] == resolved.Primary
 //@   ensures [C09:single] resolved == nil && currentJournal != nil && currentPath != "" ==> result[currentPath] == currentJournal && (forall p string :: {result[p]} p != currentPath ==> !has(result, p))
 //@   loop 1 modifies result[*]
 //@   loop 1 invariant result != nil && fresh(result) && resolved != nil
@@ -484,7 +486,7 @@ package server
 //@ func findReferences
 //@   props C09
 //@   requires target != nil
-//@   requires [C09:tree_of_current_file] resolved != nil && resolved.Primary != nil && currentPath != "" ==> srcPath(resolved) == currentPath
+//@   requires [C09:tree_labelled] resolved != nil && resolved.Primary != nil && resolved.PrimaryPath == "" ==> srcPath(resolved) == currentPath
 
 //@ func (*Server).References
 //@   props C09
